@@ -67,7 +67,7 @@ func kindText(kind, file string) string {
 	case "edit-old":
 		return "edit " + file + " (content of an older, already pushed version)"
 	case "edit-dup":
-		return "edit " + file + " (same bytes as side's q.dat)"
+		return "overwrite " + file + " with a copy of r.txt as pushed (bytes that already exist on the remote under another name)"
 	case "restore":
 		return "git checkout -- " + file
 	case "commit":
@@ -103,6 +103,7 @@ type node struct {
 	obs    *obs
 	dirty  [2][3]bool
 	merged [2]bool
+	qEdit  [2]bool // q.dat was overwritten by edit-dup (then `merge side` would conflict and is not offered)
 	devs   int
 	init   int
 	path   []int
@@ -122,6 +123,14 @@ type partDef struct {
 	MaxDepth int
 	MaxDevs  int
 	Share    float64 // share of the time budget (guard only; unused time rolls over)
+	Sym      bool    // both users have the same alphabet: states are identified up to exchanging the users
+}
+
+func (p *partDef) key(o *obs) uint64 {
+	if p.Sym {
+		return o.Key
+	}
+	return o.KeyA
 }
 
 func (p *partDef) points(init int, path []int) []vx.Point {
@@ -150,14 +159,18 @@ func enabled(n *node, o opDef, maxDevs int) bool {
 	switch o.Kind {
 	case "unlock-id":
 		return n.obs.tableAt(o.File) != nil
-	case "edit-new", "edit-old", "edit-dup", "edit-r":
+	case "edit-dup":
+		return !n.dirty[u][fileIdx(o.File)] && !n.merged[u] && !n.qEdit[u] && br == "work"
+	case "edit-new", "edit-old", "edit-r":
 		return !n.dirty[u][fileIdx(o.File)]
 	case "restore":
 		return n.dirty[u][fileIdx(o.File)]
 	case "commit":
 		return br == "work" && (n.dirty[u][0] || n.dirty[u][1] || n.dirty[u][2])
 	case "merge":
-		return br == "work" && !n.merged[u]
+		return br == "work" && !n.merged[u] && !n.qEdit[u]
+	case "checkout":
+		return !n.qEdit[u] // side changes q.dat too: git would refuse or need a merge
 	case "push":
 		if o.deviates() && n.obs.ref(u, "refs/heads/work") == n.obs.remoteRef("refs/heads/work-"+users[u]) {
 			return false // nothing to push: the deviation could not matter
@@ -263,15 +276,15 @@ func (e *envT) classifyUndetected(w *world, u int, pf pushFacts, paths []string,
 			named[f[0]] = f[1]
 		}
 	}
-	class := "old-blob"
+	class := "content-already-on-remote"
 	for _, p := range paths {
 		for _, c := range pf.Touched[p] {
 			b := strings.TrimSpace(w.gx.Git(dir, "rev-parse", c+":"+p).Out)
 			switch {
 			case old[b]:
 			case named[b] != "" && named[b] != p:
-				if class == "old-blob" {
-					class = "shared-blob"
+				if class == "content-already-on-remote" {
+					class = "content-shared-with-other-new-path"
 				}
 			default:
 				return "new-blob"
@@ -329,7 +342,7 @@ func (e *envT) runOp(w *world, n *node, o opDef) (gitx.Res, string) {
 	case "edit-old":
 		return write(o.File, "p-old\n")
 	case "edit-dup":
-		return write(o.File, "q-side\n")
+		return write(o.File, "r-base\n")
 	case "restore":
 		return git("checkout", "--", o.File)
 	case "commit":
@@ -401,7 +414,7 @@ func (e *envT) step(w *world, pre *node, ro bool, o opDef, where string) stepOut
 	t2 := time.Now()
 	post := w.observe()
 	so.counters["t_us_observe"] = time.Since(t2).Microseconds()
-	nn := &node{obs: post, dirty: pre.dirty, merged: pre.merged, devs: pre.devs, init: pre.init, depth: pre.depth + 1}
+	nn := &node{obs: post, dirty: pre.dirty, merged: pre.merged, qEdit: pre.qEdit, devs: pre.devs, init: pre.init, depth: pre.depth + 1}
 	if o.deviates() {
 		nn.devs++
 	}
@@ -413,7 +426,10 @@ func (e *envT) step(w *world, pre *node, ro bool, o opDef, where string) stepOut
 	switch o.Kind {
 	case "edit-new":
 		nn.dirty[u][fileI] = true // the new content names the current tip, which no committed version can
-	case "edit-old", "edit-dup":
+	case "edit-dup":
+		nn.dirty[u][fileI] = true
+		nn.qEdit[u] = true
+	case "edit-old":
 		// writing the bytes HEAD already has leaves the file clean
 		nn.dirty[u][fileI] = post.U[u].Content[fileI] != e.headContent(w, u, o.File)
 	case "restore":
@@ -767,7 +783,7 @@ func (e *envT) step(w *world, pre *node, ro bool, o opDef, where string) stepOut
 	if o.Page {
 		so.outcome += ":paged"
 	}
-	so.nontriv = post.Key != pre.obs.Key || len(must) > 0 || hits > 0 || o.Kind == "push"
+	so.nontriv = post.KeyA != pre.obs.KeyA || len(must) > 0 || hits > 0 || o.Kind == "push"
 	t3 := time.Now()
 	nn.snap = w.capture()
 	so.counters["t_us_capture"] = time.Since(t3).Microseconds()
@@ -1036,12 +1052,12 @@ func faultAlphabet(thorough bool) []opDef {
 func pushAlphabet(thorough bool, who []int) []opDef {
 	var ops []opDef
 	for _, u := range who {
-		base := []opDef{mk(u, "edit-new", fP), mk(u, "edit-old", fP), mk(u, "edit-new", fR), mk(u, "commit", ""), mk(u, "merge", ""), mk(u, "push", "")}
+		base := []opDef{mk(u, "edit-new", fP), mk(u, "edit-dup", fQ), mk(u, "edit-new", fR), mk(u, "commit", ""), mk(u, "merge", ""), mk(u, "push", "")}
 		if len(who) > 1 {
 			base = append(base, mk(u, "lock", fP), mk(u, "lock", fQ), mk(u, "unlock", fP))
 		}
 		if thorough {
-			base = append(base, mk(u, "edit-dup", fP), mk(u, "locks-verify", ""))
+			base = append(base, mk(u, "edit-old", fP), mk(u, "locks-verify", ""))
 		}
 		ops = append(ops, base...)
 		sts := []int{403, 404, 500}
@@ -1086,14 +1102,15 @@ func (p *partDef) where(init int, path []int) string {
 }
 
 func toResult(p *partDef, pre *node, path []int, so *stepOut) vx.Result {
+	preKey := p.key(pre.obs)
 	o := p.Ops[path[len(path)-1]]
 	r := vx.Result{Points: p.points(pre.init, path), Outcome: so.outcome, Evals: so.evals, Transitions: 1,
 		Violations: so.viols, Inconcl: so.inconcl, Counters: so.counters}
-	r.States = []uint64{pre.obs.Key}
+	r.States = []uint64{preKey}
 	if so.node != nil {
-		r.States = append(r.States, so.node.obs.Key)
-		if so.nontriv {
-			r.NonTrivial = []string{fmt.Sprintf("%016x|%s", pre.obs.Key, o.Name)}
+		r.States = append(r.States, p.key(so.node.obs))
+		if so.nontriv || p.key(so.node.obs) != preKey {
+			r.NonTrivial = []string{fmt.Sprintf("%016x|%s", preKey, o.Name)}
 		}
 		r.Sample = map[string]interface{}{"scenario": p.Name, "initial_state": p.Inits[pre.init].Desc, "operations": p.names(path), "last_command": so.cmd,
 			"last_exit": so.res.Code, "outcome": so.outcome, "lock_api_requests": so.apiLog, "state_after": so.node.obs.describe()}
@@ -1111,10 +1128,8 @@ func (e *envT) bfs(p *partDef, deadline time.Time) (*vx.Stats, bfsInfo) {
 	for i, is := range p.Inits {
 		n := *is.Node
 		n.init = i
-		k := n.obs.Key ^ uint64(i)*0x9e3779b97f4a7c15 // initial states of different configurations never merge (config is in the key anyway)
-		_ = k
-		if _, ok := seen[n.obs.Key]; !ok {
-			seen[n.obs.Key] = 0
+		if _, ok := seen[p.key(n.obs)]; !ok {
+			seen[p.key(n.obs)] = 0
 			frontier = append(frontier, &n)
 		}
 	}
@@ -1207,9 +1222,9 @@ func (e *envT) bfs(p *partDef, deadline time.Time) (*vx.Stats, bfsInfo) {
 				}
 				nn := d.so.node
 				nn.path = path
-				old, was := seen[nn.obs.Key]
+				old, was := seen[p.key(nn.obs)]
 				if !was || nn.devs < old {
-					seen[nn.obs.Key] = nn.devs
+					seen[p.key(nn.obs)] = nn.devs
 					next = append(next, nn)
 					if os.Getenv("C16_DEBUG") != "" {
 						fmt.Printf("NEW depth=%d %v\n  %s\n", depth+1, p.names(path), strings.ReplaceAll(nn.obs.canon([2]int{0, 1}), "\n", "\n  "))
@@ -1253,7 +1268,7 @@ func (e *envT) replayRun(p *partDef) vx.RunFunc {
 		defer func() { e.pool <- w }()
 		cur := *p.Inits[i].Node
 		cur.init = i
-		agg := vx.Result{Counters: map[string]int64{}, States: []uint64{cur.obs.Key}}
+		agg := vx.Result{Counters: map[string]int64{}, States: []uint64{p.key(cur.obs)}}
 		var path []int
 		for {
 			c := x.In(len(p.Ops) + 1)
@@ -1281,7 +1296,7 @@ func (e *envT) replayRun(p *partDef) vx.RunFunc {
 				agg.Inconcl = so.inconcl
 				break
 			}
-			agg.States = append(agg.States, so.node.obs.Key)
+			agg.States = append(agg.States, p.key(so.node.obs))
 			so.node.path = path
 			cur = *so.node
 		}
@@ -1340,18 +1355,18 @@ func TestVerifC16(t *testing.T) {
 	var parts []partDef
 	if e.thorough {
 		parts = []partDef{
-			{Name: "locks", Inits: []initState{iTrueOn}, Ops: locksAlphabet(true, false), MaxDepth: 4, MaxDevs: 0, Share: 30},
-			{Name: "locks-faults", Inits: []initState{iTrueOn, iP1, iP1Q2}, Ops: faultAlphabet(true), MaxDepth: 3, MaxDevs: 2, Share: 20},
-			{Name: "locks-readonly-off", Inits: []initState{iTrueOff}, Ops: locksAlphabet(false, false), MaxDepth: 3, MaxDevs: 0, Share: 5},
+			{Name: "locks", Inits: []initState{iTrueOn}, Ops: locksAlphabet(true, false), MaxDepth: 4, MaxDevs: 0, Share: 30, Sym: true},
+			{Name: "locks-faults", Inits: []initState{iTrueOn, iP1, iP1Q2}, Ops: faultAlphabet(true), MaxDepth: 3, MaxDevs: 2, Share: 20, Sym: true},
+			{Name: "locks-readonly-off", Inits: []initState{iTrueOff}, Ops: locksAlphabet(false, false), MaxDepth: 3, MaxDevs: 0, Share: 5, Sym: true},
 			{Name: "push", Inits: []initState{iTrueOn, iP1, iP2, iQ1, iQ2, iP1Q2, iP2Q1, iPQ1, iPQ2}, Ops: pushAlphabet(true, []int{1}), MaxDepth: 4, MaxDevs: 1, Share: 30},
-			{Name: "push-two-users", Inits: []initState{iTrueOn}, Ops: pushAlphabet(false, []int{0, 1}), MaxDepth: 4, MaxDevs: 1, Share: 10},
+			{Name: "push-two-users", Inits: []initState{iTrueOn}, Ops: pushAlphabet(false, []int{0, 1}), MaxDepth: 4, MaxDevs: 1, Share: 10, Sym: true},
 			{Name: "push-verify-unset-or-false", Inits: []initState{iUnsetP1, iFalseP1, iUnsetOn}, Ops: pushAlphabet(false, []int{1}), MaxDepth: 4, MaxDevs: 1, Share: 5},
 		}
 	} else {
 		parts = []partDef{
-			{Name: "locks", Inits: []initState{iTrueOn}, Ops: locksAlphabet(false, false), MaxDepth: 3, MaxDevs: 0, Share: 35},
-			{Name: "locks-faults", Inits: []initState{iTrueOn, iP1}, Ops: faultAlphabet(false), MaxDepth: 2, MaxDevs: 1, Share: 20},
-			{Name: "locks-readonly-off", Inits: []initState{iTrueOff}, Ops: locksAlphabet(false, false), MaxDepth: 2, MaxDevs: 0, Share: 7},
+			{Name: "locks", Inits: []initState{iTrueOn}, Ops: locksAlphabet(false, false), MaxDepth: 3, MaxDevs: 0, Share: 35, Sym: true},
+			{Name: "locks-faults", Inits: []initState{iTrueOn, iP1}, Ops: faultAlphabet(false), MaxDepth: 2, MaxDevs: 1, Share: 20, Sym: true},
+			{Name: "locks-readonly-off", Inits: []initState{iTrueOff}, Ops: locksAlphabet(false, false), MaxDepth: 2, MaxDevs: 0, Share: 7, Sym: true},
 			{Name: "push", Inits: []initState{iTrueOn, iP1, iP2, iQ1}, Ops: pushAlphabet(false, []int{1}), MaxDepth: 3, MaxDevs: 1, Share: 33},
 			{Name: "push-verify-unset-or-false", Inits: []initState{iUnsetP1, iFalseP1}, Ops: pushMini(1), MaxDepth: 3, MaxDevs: 0, Share: 5},
 		}
